@@ -316,7 +316,29 @@ def msg2(kind, who):
         return F.long_ap(20, 0x0001838 & 0x7FFFFFF, CF.bds50(), aa), "commb"
     if kind == "b60":
         return F.long_ap(21, 0x0000AAA, CF.bds60(), aa), "commb"
+    if kind in COMMB_MB:
+        k_ = sorted(COMMB_MB).index(kind)
+        return F.long_ap(20 + k_ % 2, [0x0001838, 0x0000AAA][k_ % 2], COMMB_MB[kind], aa), "commb"
     raise ValueError(kind)
+
+
+def _commb_mb():
+    """one reply per answer the register inference can give - every register, an empty MB, and MBs that match NO register
+    (all ones, alternating bits, a lone bit): a listed aircraft is heard through each of them all the same."""
+    from spec import bds_rules as BR_
+    d = {"c10": BR_.valid("BDS10")[0], "c17": BR_.valid("BDS17")[0], "c20": BR_.valid("BDS20")[0], "c30": BR_.valid("BDS30")[0],
+         "c40": BR_.valid("BDS40")[30], "c44": BR_.valid("BDS44")[50], "c45": BR_.valid("BDS45")[20], "c50": CF.bds50(), "c60": CF.bds60(),
+         "cempty": 0, "cones": (1 << 56) - 1, "calt": 0xAAAAAAAAAAAAAA, "cbit": 1 << 30, "cres": 0xFFF00000000000}
+    return d
+
+
+COMMB_MB = _commb_mb()
+ALL_COMMB = sorted(COMMB_MB)
+
+
+def all_commb_events():
+    """exploration 2d: a listed aircraft heard ONLY through Comm-B replies of every kind (incl. unidentifiable ones)."""
+    return [("A", k_, g) for k_ in ALL_COMMB for g in (30, 57.4)] + [("A", "tick", 57.4), ("A", "tick", 30), ("A", "id", 61.2), ("B", "id", 30)]
 
 
 def norm_table(acs):
@@ -421,6 +443,10 @@ def run_listing(prefix, depth, kinds, gaps, acc):
     def succ(st):
         if kinds == "all_adsb":
             for ev in all_adsb_events():
+                yield ev, step2(st, *ev)
+            return
+        if kinds == "all_commb":
+            for ev in all_commb_events():
                 yield ev, step2(st, *ev)
             return
         if kinds == "lag":
@@ -770,6 +796,9 @@ def run(ctx):
             tasks.append(("list", (a, b), 5 if ctx.thorough else 4, "lag", None))
     for a in all_adsb_events():
         tasks.append(("list", (a,), 4 if ctx.thorough else 3, "all_adsb", None))
+    for a in all_commb_events():
+        if a[1] in ALL_COMMB:
+            tasks.append(("list", (("A", "id", 0.3), a), 4 if ctx.thorough else 3, "all_commb", None))
     for b in BATCHES:
         tasks.append(("batch", b, 4 if ctx.thorough else 3))
     for sn in feature_seeds():
